@@ -5,7 +5,8 @@
 
 std::string sqf::types::d_scalar::to_string_sqf() const
 {
-    if (s_decimals == -1)
+    auto decimals = d_scalar::decimals();
+    if (decimals == -1)
     {
         auto bufflen = std::snprintf(nullptr, 0, "%g", m_value) + 1;
         auto buff = new char[bufflen];
@@ -16,9 +17,9 @@ std::string sqf::types::d_scalar::to_string_sqf() const
     }
     else
     {
-        auto bufflen = std::snprintf(nullptr, 0, "%0.*f", s_decimals, m_value) + 1;
+        auto bufflen = std::snprintf(nullptr, 0, "%0.*f", decimals, m_value) + 1;
         auto buff = new char[bufflen];
-        std::snprintf(buff, bufflen, "%0.*f", s_decimals, m_value);
+        std::snprintf(buff, bufflen, "%0.*f", decimals, m_value);
         auto str = std::string(buff, bufflen - 1);
         delete[] buff;
         return str;
@@ -27,7 +28,8 @@ std::string sqf::types::d_scalar::to_string_sqf() const
 
 std::string sqf::types::d_scalar::to_string() const
 {
-    if (s_decimals == -1)
+    auto decimals = d_scalar::decimals();
+    if (decimals == -1)
     {
         auto bufflen = std::snprintf(nullptr, 0, "%g", m_value) + 1;
         auto buff = new char[bufflen];
@@ -38,9 +40,9 @@ std::string sqf::types::d_scalar::to_string() const
     }
     else
     {
-        auto bufflen = std::snprintf(nullptr, 0, "%0.*f", s_decimals, m_value) + 1;
+        auto bufflen = std::snprintf(nullptr, 0, "%0.*f", decimals, m_value) + 1;
         auto buff = new char[bufflen];
-        std::snprintf(buff, bufflen, "%0.*f", s_decimals, m_value);
+        std::snprintf(buff, bufflen, "%0.*f", decimals, m_value);
         auto str = std::string(buff, bufflen - 1);
         delete[] buff;
         return str;
